@@ -11,6 +11,11 @@ use std::time::{Duration, Instant};
 pub const DEFAULT_SEED: u64 = 20261003;
 pub const VERIF_DIR: &str = "/verif";
 
+/// where replays and evidence go; /verif unless VERIF_OUT_DIR is set (background sweeps)
+pub fn out_dir() -> String {
+    std::env::var("VERIF_OUT_DIR").unwrap_or_else(|_| VERIF_DIR.to_string())
+}
+
 pub fn seed_from_env() -> u64 {
     std::env::var("VERIF_SEED")
         .ok()
@@ -157,14 +162,14 @@ pub fn cmd_worker(args: &[String]) -> i32 {
             out_line(&format!("K {} {} {}", run, slug, v.detail.replace('\n', " ")));
         }
         if let Some(v) = viol.first() {
-            let path = format!("{}/replays/{}-{}-r{}.raw.json", VERIF_DIR, p.id(), seed, run);
+            let path = format!("{}/replays/{}-{}-r{}.raw.json", out_dir(), p.id(), seed, run);
             let rp = Replay {
                 scenario: rep.replay_scenario.clone().unwrap_or_else(|| sc.clone()),
                 violation: v.clone(),
                 minimised: false,
                 note: String::new(),
             };
-            let _ = std::fs::create_dir_all(format!("{}/replays", VERIF_DIR));
+            let _ = std::fs::create_dir_all(format!("{}/replays", out_dir()));
             let _ = std::fs::write(&path, serde_json::to_string_pretty(&rp).unwrap_or_default());
             out_line(&format!("V {} {}", run, path));
         }
@@ -215,7 +220,7 @@ static EVAL_COUNTER: std::sync::atomic::AtomicU64 = std::sync::atomic::AtomicU64
 
 pub fn eval_child(sc: &Scenario, timeout: Duration) -> Eval {
     let n = EVAL_COUNTER.fetch_add(1, std::sync::atomic::Ordering::Relaxed);
-    let dir = format!("{}/sim/target/evaltmp", VERIF_DIR);
+    let dir = format!("{}/evaltmp", std::env::var("VERIF_OUT_DIR").unwrap_or_else(|_| format!("{}/sim/target", VERIF_DIR)));
     let _ = std::fs::create_dir_all(&dir);
     let path = format!("{}/e{}-{}.tmp", dir, std::process::id(), n);
     if std::fs::write(&path, serde_json::to_string(sc).unwrap_or_default()).is_err() {
@@ -765,14 +770,14 @@ pub fn cmd_check(prop_id: &str, tier: &str) -> i32 {
             // the worker died inside run `run`
             if p.may_abort() {
                 let sc = p.generate(seed, run, tier);
-                let path = format!("{}/replays/{}-{}-r{}.raw.json", VERIF_DIR, p.id(), seed, run);
+                let path = format!("{}/replays/{}-{}-r{}.raw.json", out_dir(), p.id(), seed, run);
                 let rp = Replay {
                     scenario: sc,
                     violation: abort_violation(p.id(), &wr.exit_desc),
                     minimised: false,
                     note: String::new(),
                 };
-                let _ = std::fs::create_dir_all(format!("{}/replays", VERIF_DIR));
+                let _ = std::fs::create_dir_all(format!("{}/replays", out_dir()));
                 let _ = std::fs::write(&path, serde_json::to_string_pretty(&rp).unwrap_or_default());
                 violations.push((run, path));
                 agg.runs += 1;
@@ -848,7 +853,7 @@ pub fn cmd_check(prop_id: &str, tier: &str) -> i32 {
             let confirmed = violations_of(&min_sc, &known)
                 .map(|vs| vs.iter().any(|v| v.class() == class))
                 .unwrap_or(false);
-            let final_path = format!("{}/replays/{}-{}-r{}.json", VERIF_DIR, p.id(), seed, run);
+            let final_path = format!("{}/replays/{}-{}-r{}.json", out_dir(), p.id(), seed, run);
             let (sc_out, v_out, minimised) = if confirmed {
                 (min_sc, min_v, true)
             } else {
@@ -944,8 +949,8 @@ pub fn cmd_check(prop_id: &str, tier: &str) -> i32 {
         },
         "assumptions": p.assumptions(),
     });
-    let _ = std::fs::create_dir_all(format!("{}/evidence", VERIF_DIR));
-    let ev_path = format!("{}/evidence/{}.json", VERIF_DIR, p.id());
+    let _ = std::fs::create_dir_all(format!("{}/evidence", out_dir()));
+    let ev_path = format!("{}/evidence/{}.json", out_dir(), p.id());
     if std::fs::write(&ev_path, serde_json::to_string_pretty(&ev).unwrap_or_default()).is_err() {
         eprintln!("svsim: cannot write {}", ev_path);
         return 2;
